@@ -75,7 +75,7 @@ class IntervalSage(BatchSage):
             storage=storage,
             imputer=imputer
         )
-        self.interval_length = interval_length
+        self.interval_length = int(interval_length)  # a NumPy integer would force the call counter into its type
         self.seen_samples = 0
 
     def explain_one(
